@@ -4,7 +4,7 @@ import json, os
 ROOT = os.path.dirname(os.path.dirname(os.path.abspath(__file__)))
 T = {
  "C01": ("Coq theorem: protect then unprotect in the opposite role returns the message, for all D-messages, suites (generic), keys, roles, IV/padding scripts; no-key path = plain codec", "Coq proof (CBC inverse + codec round trip + MAC determinism) + differential correspondence with scripted randomness"),
- "C02": ("Coq theorems: acceptance implies a valid tag under the peer-direction key (reduction to MAC forgery), no cipher call before a valid tag, no crash for any byte string", "Coq proof (reduction, verify-before-decrypt, no-Fault) + tampering correspondence with a spy cipher"),
+ "C02": ("Coq theorems for every byte string: every outcome of an unprotection (refused | handled as a non-SK datagram | cipher reached only with a valid tag under the peer-direction key), wrong or short checksum refused before the cipher, reflection / cross-key acceptance only on HMAC coincidence, no crash; rejection of modified covered octets reduces to HMAC forgery (not provable)", "Coq proof (reduction, verify-before-decrypt, no-Fault) + tampering correspondence with a spy cipher"),
  "C03": ("Coq theorem: decode (encode m) = m on the encodable domain (via Impl = Spec on canonical trees and the liberty-general decoder lemma)", "Coq proof by induction over payload chain and nested lists + differential correspondence"),
  "C04": ("Coq theorems: every decoder and unprotection is neither Fault nor OutOfFuel for every byte string", "Coq proof (symbolic execution of each decoder, induction on fuel) + exhaustive boundary sweeps with exact/spare capacity"),
  "C05": ("Coq theorems against the independent RFC 7296 codec of Spec/: encode m = wenc (canon m); decode (wenc w) = erase w for every liberty", "Coq proof (refinement to an independent spec codec) + both directions run through the extracted Spec"),
@@ -14,7 +14,7 @@ T = {
  "C09": ("Coq theorems: primes = RFC formula, g^x mod p with fixed length for all x, agreement, exponent range and provenance", "Coq proof + source constants regenerated into Coq + correspondence with scripted random source"),
  "C10": ("Coq theorems: decrypt . encrypt = id, size law, textbook CBC layout, IV = next source octets, failing source => error, total decryption, key size", "Coq proof over an abstract block cipher + differential correspondence incl. all 256 pad octets"),
  "C11": ("Coq theorems: to/decode transform inverse, soundness for all 2^16 identifiers and attribute shapes, RFC lengths, proposals", "Coq proof by case analysis + exhaustive identifier sweep against the implementation"),
- "C12": ("Coq theorems: the decoder's image is inside the round-trip domain, hence decode . encode . decode = decode and a fixed point after one step", "Coq proof (image lemma + general round trip) + accepted mutations / sweeps"),
+ "C12": ("partial: Coq theorems that every message of the encoding domain reaches a fixed point after one decode/encode step and that canonical datagrams re-encode byte-identically; the image lemma (decoder output lies in the domain) is measured per run with the extracted, proved-sound decision procedure dom_msgb instead of proved", "Coq proof (general round trip + canonical re-encoding) + domain decision evaluated on every accepted input + instance decode.encode.decode = decode"),
  "C13": ("Coq theorem: chains with unsupported payloads decode as without them iff none is critical, at any positions", "Coq proof by induction over the chain + exhaustive type-code sweep"),
  "C14": ("Coq theorems: EAP round trip, framing, get . set, setter size rules for all sizes, map-order independence of Marshal", "Coq proof + differential correspondence with full observation of EAP-AKA' state"),
  "C15": ("Coq theorems: code = trunc16 HMAC over the wire form with AT_MAC zeroed, independent of the old value; receiver agreement for canonical packets (partial: non-canonical packets are a known finding)", "Coq proof + correspondence; known finding for re-serialised non-canonical packets"),
@@ -42,7 +42,7 @@ m = {"version": 1, "setup_cmd": "bin/setup",
                "source_commits": ["22de5e4"], "add_only": True},
      "engines": [{"name": "coq", "path": "coq/", "serves_properties": claimed, "kind_free_text": "Coq 8.16.1 development: Lib, Prim, Impl (model of the Go code), Spec (RFC-written), Thm, Props (one file per property)"},
                  {"name": "correspondence", "path": "harness/", "serves_properties": claimed, "kind_free_text": "Go harness linking /repo's working tree, compared with the OCaml extraction of the Coq model (ocaml/), primitives answered by Go's standard library"},
-                 {"name": "srcfacts", "path": "tools/srcfacts/", "serves_properties": [p for p in claimed if p in ("C09", "C11", "C18", "C20")], "kind_free_text": "go/ast + go/types translator regenerating constants, tables, global-write footprint and ownership facts into coq/gen/SrcFacts.v"}],
+                 {"name": "srcfacts", "path": "tools/srcfacts/", "serves_properties": [p for p in claimed if p in ("C03", "C05", "C07", "C08", "C09", "C11", "C12", "C13", "C14", "C15", "C18", "C19", "C20")], "kind_free_text": "go/ast + go/types translator regenerating constants, primes, registry tables, global-write footprint and ownership facts into coq/gen/SrcFacts.v on every run; coq/gen/Agree*.v prove them equal to the model's / sufficient for the frame and ownership theorems"}],
      "checks": checks, "not_applicable": na,
      "notes": "bin/check <ID> quick|thorough; VERIF_SEED honoured; replays under replays/; known findings in known_findings.txt"}
 json.dump(m, open(os.path.join(ROOT, "MANIFEST.json"), "w"), indent=1)
